@@ -129,7 +129,8 @@ func rulePAPrecedence(w *World, c *Check, rule, fk string) {
 				var pass []Edge
 				reason := "no comparison with a loop-carried precedence variable guards this update"
 				for _, cd := range fa.Conds {
-					if cd.Kind != "gt" || !inRegion(cd.If.Block(), L) {
+					// the guard sits in the case itself, or before the switch on the way to every case
+					if cd.Kind != "gt" || !(inRegion(cd.If.Block(), L) || (loopHeaderOf(cd.If.Block()) == header && cd.If.Block().Dominates(L.entry))) {
 						continue
 					}
 					b := cd.If.Cond
@@ -179,10 +180,59 @@ func rulePAPrecedence(w *World, c *Check, rule, fk string) {
 				for _, e := range pass {
 					rm[e] = true
 				}
-				path := pathTo(L.entry, rm, nil, map[*ssa.BasicBlock]bool{ul.pred: true})
+				path := pathTo(header, rm, nil, map[*ssa.BasicBlock]bool{ul.pred: true})
 				// the update is "reached" only if the changed operand is produced after the guard
 				c.Decide(path == nil || ul.pred == L.entry && false, rule, fk, construct, w.Pos(InstrPos(lastInstr(ul.pred))), desc, "update reachable without the precedence guard: "+fa.DescribePath(path))
 			}
+		}
+	}
+	// the precedence variable(s) the guards compare with advance only for the three key-describing
+	// PA types: an unrelated, higher-numbered PA-data type must not make the loop skip the hints
+	{
+		var tests []GuardPat
+		for k := range paPrecedence {
+			tests = append(tests, EqPass(`.*\.PADataType|paType|@\d+`, k))
+		}
+		typed, _ := fa.MatchGuardSet(tests, nil)
+		rm := map[Edge]bool{}
+		for _, e := range typed {
+			rm[e] = true
+		}
+		precVars := map[*ssa.Phi]bool{}
+		for _, cd := range fa.Conds {
+			if cd.Kind != "gt" || loopHeaderOf(cd.If.Block()) != header {
+				continue
+			}
+			if bo, ok := stripNot(cd.If.Cond).(*ssa.BinOp); ok {
+				for _, o := range []ssa.Value{bo.X, bo.Y} {
+					if p, isPhi := stripConv(o).(*ssa.Phi); isPhi && p.Block() == header {
+						other := bo.X
+						if o == bo.X {
+							other = bo.Y
+						}
+						if strings.HasSuffix(fa.R.R(other), ".PADataType") {
+							precVars[p] = true
+						}
+					}
+				}
+			}
+		}
+		for p := range precVars {
+			okAdv, detail := true, ""
+			for i, pr := range header.Preds {
+				if i >= len(p.Edges) || passesThrough(p.Edges[i], p) || !header.Dominates(pr) {
+					continue
+				}
+				if path := pathTo(header, rm, nil, map[*ssa.BasicBlock]bool{pr: true}); path != nil {
+					okAdv = false
+					detail = "the precedence variable is advanced on a path that has not established the PA type to be PA-PW-SALT, PA-ETYPE-INFO or PA-ETYPE-INFO2: " + fa.DescribePath(path)
+				}
+			}
+			name := p.Comment
+			if name == "" {
+				name = p.Name()
+			}
+			c.Decide(okAdv, rule, fk, "advance-only-for-hints:"+name, where, "the precedence variable advances only for the three PA types that describe the key", detail)
 		}
 	}
 	if n == 0 {
